@@ -212,6 +212,23 @@ func (b *builder) attrs(attrs []*sp.Attr, required []string, errName string) {
 
 func (b *builder) attr(a *sp.Attr, fn func()) {
 	decl := func(name string, args ...any) {
+		switch {
+		case a.Sec == "username":
+			Username(name, args...)
+			return
+		case a.Sec == "password":
+			Password(name, args...)
+			return
+		case strings.HasPrefix(a.Sec, "apikey:"):
+			APIKey(strings.TrimPrefix(a.Sec, "apikey:"), name, args...)
+			return
+		case a.Sec == "token":
+			Token(name, args...)
+			return
+		case a.Sec == "accesstoken":
+			AccessToken(name, args...)
+			return
+		}
 		if a.Tag != 0 {
 			Field(a.Tag, name, args...)
 		} else {
